@@ -11,7 +11,8 @@ from pathlib import Path
 V = Path("/verif")
 # the checks are run against a scratch worktree of /repo (VERIF_REPO), never against /repo itself,
 # so that long runs that read /repo are not disturbed
-R = "/tmp/seedrepo"
+import os
+R = os.environ.get("SEEDREPO", "/tmp/seedrepo")
 
 
 def sh(cmd, cwd=None, timeout=1800):
